@@ -532,6 +532,7 @@ func checkC16(c *Ctx) {
 		}
 		_ = os.Remove(path)
 	})
+	c16ExactLines(c, base)
 	if c.Thorough() {
 		if bin := os.Getenv("VERIF_RACE_BIN"); bin != "" {
 			rdir := filepath.Join(base, "race")
@@ -559,3 +560,74 @@ func checkC16(c *Ctx) {
 }
 
 func oracleHash(s string) string { return oracle.Hash(s) }
+
+// c16ExactLines: one writer; the k-th entry's JSON line is tuned (payload size + recipient padding) to an
+// exact length around the buffer sizes readers and counters use (multiples of 4 KiB / 64 KiB, the 1 MiB
+// limit), each followed by small entries; then the structural check.
+func c16ExactLines(c *Ctx, base string) {
+	targets := []int{4096, 65535, 65536, 65537, 2 * 65536, 2*65536 - 1, 3 * 65536, 7*65536 + 1, 8 * 65536, 15 * 65536, 1<<20 - 2}
+	if c.Thorough() {
+		for k := 4; k <= 14; k++ {
+			targets = append(targets, k*65536)
+		}
+	}
+	Parallel(len(targets), 6, func(i int) {
+		target := targets[i]
+		path := filepath.Join(base, fmt.Sprintf("exact-%d", i))
+		lock := filepath.Join(base, fmt.Sprintf("exact-lock-%d", i))
+		wit := map[string]interface{}{"family": "exact line length", "line_bytes": target}
+		st, err := file_storage.NewFileStorage(path, lock)
+		if err != nil {
+			c.Inconclusive("exact lines: %v", err)
+			return
+		}
+		defer st.Close()
+		var ops []fsOp
+		ops = append(ops, fsAppend(st, 0, "pre-0", []byte("x")), fsAppend(st, 0, "pre-1", nil))
+		// the line of entry 2: predict its JSON with a placeholder id of uuid length, then tune
+		mk := func(dataLen, pad int) storage.Message {
+			return storage.Message{ID: strings.Repeat("0", 36), Offset: 2, Event: "e", Data: bytes.Repeat([]byte{0xA5}, dataLen), SenderAddr: "exact", DkgRoundID: "r", RecipientAddr: strings.Repeat("p", pad)}
+		}
+		lineLen := func(m storage.Message) int { bz, _ := json.Marshal(m); return len(bz) }
+		dataLen := 0
+		if over := target - lineLen(mk(0, 0)); over > 8 {
+			dataLen = (over - 8) / 4 * 3
+		}
+		for lineLen(mk(dataLen+3, 0)) <= target {
+			dataLen += 3
+		}
+		pad := target - lineLen(mk(dataLen, 0))
+		if pad < 0 || lineLen(mk(dataLen, pad)) != target {
+			c.Inconclusive("cannot tune a line of %d bytes", target)
+			return
+		}
+		tuned := mk(dataLen, pad)
+		op := fsOp{Client: 0, Kind: "append", Tag: "exact"}
+		msgs := []storage.Message{{Event: "e", Data: tuned.Data, SenderAddr: "exact", DkgRoundID: "r", RecipientAddr: tuned.RecipientAddr}}
+		op.Call = monoNow()
+		if err := st.Send(msgs...); err != nil {
+			op.Err = err.Error()
+		}
+		op.Ret = monoNow()
+		op.Off, op.ID, op.DataH = int(msgs[0].Offset), msgs[0].ID, oracle.Hash(string(tuned.Data))
+		ops = append(ops, op)
+		for k := 0; k < 3; k++ {
+			ops = append(ops, fsAppend(st, 0, fmt.Sprintf("post-%d", k), []byte{byte(k)}))
+		}
+		raw, _ := os.ReadFile(path)
+		lines := bytes.Split(bytes.TrimSuffix(raw, []byte("\n")), []byte("\n"))
+		if len(lines) < 3 || len(lines[2]) != target {
+			got := -1
+			if len(lines) >= 3 {
+				got = len(lines[2])
+			}
+			c.Note("exact-length family: wanted a line of %d bytes, the file has %d (measurement skipped)", target, got)
+			return
+		}
+		c.Eval(1)
+		c.Add("entries_with_an_exactly_tuned_line_length", 1)
+		c.Distinct(fmt.Sprintf("exact-line|%d", target))
+		judgeLogStructure(c, path, lock, ops, wit)
+		_ = os.Remove(path)
+	})
+}
